@@ -298,7 +298,7 @@ func protectedDiff(before, after map[string][]byte, freshRound string) []string 
 }
 
 func checkC09(c *Ctx) {
-	c.Rule = "reference ceremonies (honest key generation + two signing batches; a key generation cancelled by an error report; a round reinitialised from a dump followed by signing) are run one message per poll with a snapshot after every step, so that every (genuine message, consuming node) pair is met in the exact state in which the node consumes it. Each pair is attacked with ~30 forgeries (payload bit flips per byte class, signature flips/truncation/empty/zero, sender renamed to each other participant or a stranger, re-signed with each other participant's key or a fresh key); every forgery is also presented wrapped inside an (unauthenticated) reinit_dkg message for a fresh round id. Oracle: ProcessMessage returns an error and the node's durable state (offset excluded) is byte-identical; for the wrapped family: every existing round, existing operation and signature store is unchanged. distinct = distinct (world, event type, consuming-state name, forgery kind)"
+	c.Rule = "reference ceremonies (honest key generation + two signing batches; a key generation cancelled by an error report; a round reinitialised from a dump followed by signing) are run one message per poll with a snapshot after every step, so that every (genuine message, consuming node) pair is met in the exact state in which the node consumes it. Each pair is attacked with ~30 forgeries (payload bit flips per byte class, signature flips/truncation/empty/zero, sender renamed to each other participant or a stranger, re-signed with each other participant's key or a fresh key); every forgery is also presented wrapped inside an (unauthenticated) reinit_dkg message for a fresh round id. Oracle: ProcessMessage returns an error and the node's durable state (offset excluded) is byte-identical; for the wrapped family: every existing round, existing operation and signature store is unchanged. Plus rounds in which the key registered for a participant is unusable (10/16/31/33/64-byte key in the opening proposal, key left out of a reinit message): every message naming that participant, under any signature, must be refused without a trace. Stranger's opening proposals under identifiers that fold onto the existing round's must leave it unchanged. distinct = distinct (world, event type, consuming-state name, forgery kind)"
 	c.Assumptions = []string{"MemState substituted for LevelDB", "the opening proposal and the reinitialisation message themselves are exempt by the property"}
 	kinds := []struct {
 		kind string
@@ -504,6 +504,36 @@ func attackWorldC09(c *Ctx, rw *refWorld, seed uint64) {
 					c.Distinct(fmt.Sprintf("%s|reinit-of-existing-round|%s|%s|%d", rw.Name, g.Event, stateName, i))
 					if pd := protectedDiff(before, after3, ""); len(pd) > 0 {
 						c.Violate("C09/reinit-message-for-an-existing-round-changed-it", fmt.Sprintf("an unauthenticated reinit_dkg message for round %s, which %s already holds (in %s), changed %v", trunc(g.DkgRoundID, 8), nd.Name, stateName, pd), map[string]interface{}{"world": rw.Name, "node": nd.Name, "state": stateName, "embedded": mu.Label})
+					}
+				}
+				// fourth channel: an (exempt) opening proposal carrying a stranger's keys, posted under an identifier
+				// that a careless normalisation folds onto the existing round's (blanks, case, a prefix): it may
+				// open a round of that name, the existing round stays as it is
+				if i == 0 {
+					var opener *storage.Message
+					for k := range all {
+						if all[k].Event == EvInit && all[k].DkgRoundID == g.DkgRoundID {
+							opener = &all[k]
+							break
+						}
+					}
+					if opener != nil {
+						for _, rid := range roundIDLookalikes(g.DkgRoundID) {
+							msg := strangerProposal(*opener)
+							msg.DkgRoundID = rid
+							nd.Mem.Restore(m.Snaps[v])
+							func() {
+								defer func() { _ = recover() }()
+								_ = nd.Svc.ProcessMessage(msg)
+							}()
+							after4 := nd.Mem.Snapshot()
+							w.Board.Truncate(len(all))
+							c.Eval(1)
+							c.Distinct(fmt.Sprintf("%s|opening-proposal-under-lookalike-id|%s", rw.Name, stateName))
+							if pd := protectedDiff(before, after4, rid); len(pd) > 0 {
+								c.Violate("C09/opening-proposal-under-a-lookalike-id-changed-the-existing-round", fmt.Sprintf("an unauthenticated opening proposal with a stranger's keys posted under round id %q changed %v on %s (round %s was in %s)", rid, pd, nd.Name, trunc(g.DkgRoundID, 8), stateName), map[string]interface{}{"world": rw.Name, "node": nd.Name, "state": stateName, "round_id": rid})
+							}
+						}
 					}
 				}
 				// the verification switch must be back off afterwards
